@@ -67,6 +67,8 @@ def positions_witness(env, td, dt):
             want_ok = got == want
         env.check("witness:positions-reference-decodes-same", want_ok, pos)
         env.check("witness:positions-reference-bytes-decode", mod.P().parse(r.SerializeToString()) == m, pos)
+        if env.params.get("binary_only"):
+            continue  # registered under C01 / C02: the wire codec only
         label = "-map-value" if pos == "map-value" else ""
         try:
             d = m.to_dict()
@@ -156,6 +158,8 @@ def h_duration(env):
         ref = shapes.build_ref(cat)
         rm = ref["M"].FromString(data)
         env.check("witness:reference-decodes-same-span", rm.d.ToTimedelta() == td)
+        if env.params.get("binary_only"):
+            return  # registered under C01 / C02: the wire codec only
         import re
 
         text = m.to_dict().get("d", "0s")
@@ -211,6 +215,8 @@ def h_timestamp(env):
         ref = shapes.build_ref(cat)
         rm = ref["M"].FromString(data)
         env.check("witness:reference-decodes-same-instant", rm.t.ToDatetime(tzinfo=_dt.timezone.utc) == dt)
+        if env.params.get("binary_only"):
+            return  # registered under C01 / C02: the wire codec only
         text = m.to_dict().get("t", "1970-01-01T00:00:00Z")
         r2 = timestamp_pb2.Timestamp()
         try:
